@@ -768,6 +768,14 @@ impl<F: Fam> Ctx<F> {
                     "alloc-bound-key-adding", "hash-bound-lookup", "alloc-in-lookup", "moved-in-lookup", "hash-in-reserve",
                     "alloc-bound-reserve", "work-in-bulk", "hash-bound-extend",
                 ];
+                // after an injected fault only the functional and safety oracles are C07's business
+                if self.post_fault && DEFERRABLE.contains(&fl.oracle) {
+                    self.meta[s].episode = None;
+                    let h = obs.post.hook;
+                    self.meta[s].live = (h.main_buckets > 1) as i64 + h.old.is_some() as i64;
+                    self.meta[s].linger_ok = h.old.map_or(false, |o| o.len == 0);
+                    return Ok(());
+                }
                 let defer = matches!(self.focus, Some(p) if !fl.has(p)) && !self.post_fault && DEFERRABLE.contains(&fl.oracle);
                 if defer {
                     self.stats.deferred_foreign += 1;
@@ -839,233 +847,251 @@ impl<F: Fam> Ctx<F> {
             }
         }
 
-        // ---- C03: progress and reclamation
-        let removed = f.removed_from_old;
-        // a key-adding call that finds (or leaves) nothing to move in the old table frees it
-        // before inserting; what follows is judged as a call on a map without an old table
-        let mut pre_old = pre.hook.old;
-        if let Some(o) = pre_old {
-            if key_adding && !f.clears && removed <= o.len && o.len - removed == 0 && matches!(f.kind, Kind::Point) {
-                let still_same = post.hook.old.map_or(false, |po| po.buckets == o.buckets);
-                if !still_same {
-                    if removed > 0 {
-                        self.meta[s].emptied_by_removal = true;
+        // The progress (C03) and work (C02) oracles are evaluated independently, so that a finding
+        // of one does not keep the other from being evaluated for the same call.
+        let c03: Result<(), Fail> = (|| -> Result<(), Fail> {
+            // ---- C03: progress and reclamation
+            let removed = f.removed_from_old;
+            // a key-adding call that finds (or leaves) nothing to move in the old table frees it
+            // before inserting; what follows is judged as a call on a map without an old table
+            let mut pre_old = pre.hook.old;
+            if let Some(o) = pre_old {
+                if key_adding && !f.clears && removed <= o.len && o.len - removed == 0 && matches!(f.kind, Kind::Point) {
+                    let still_same = post.hook.old.map_or(false, |po| po.buckets == o.buckets);
+                    if !still_same {
+                        if removed > 0 {
+                            self.meta[s].emptied_by_removal = true;
+                        }
+                        self.episode_end(s, if o.len == 0 { 2 } else { 1 });
+                        pre_old = None;
                     }
-                    self.episode_end(s, if o.len == 0 { 2 } else { 1 });
-                    pre_old = None;
                 }
             }
-        }
-        match f.kind {
-            Kind::Point | Kind::Bulk => {
-                if f.clears {
-                    if post.old_present() {
-                        fail!(self, [C03, C01], "old-table-survives-clear", "old table still present after clear/drain");
-                    }
-                    self.episode_end(s, 3);
-                } else if let Some(o) = pre_old {
-                    let after_removal = o.len.saturating_sub(removed);
-                    if removed > o.len {
-                        fail!(self, [C03], "old-accounting", "removed {} from an old table of {}", removed, o.len);
-                    }
-                    let rounds = if key_adding { f.adds.max(1) } else { 0 };
-                    let mut expect = after_removal;
-                    for _ in 0..rounds {
-                        expect -= r.min(expect);
-                    }
-                    if key_adding {
-                        if let Some(ep) = self.meta[s].episode.as_mut() {
-                            ep.1 += 1;
+            match f.kind {
+                Kind::Point | Kind::Bulk => {
+                    if f.clears {
+                        if post.old_present() {
+                            fail!(self, [C03, C01], "old-table-survives-clear", "old table still present after clear/drain");
                         }
-                    }
-                    match post.hook.old {
-                        Some(po) => {
-                            if po.len != expect {
-                                fail!(self, [C03], "carry-quota",
-                                    "old table had {} elements ({} removed by this call), key_adding={}: expected {} left (R={}), found {}",
-                                    o.len, removed, key_adding, expect, r, po.len);
+                        self.episode_end(s, 3);
+                    } else if let Some(o) = pre_old {
+                        let after_removal = o.len.saturating_sub(removed);
+                        if removed > o.len {
+                            fail!(self, [C03], "old-accounting", "removed {} from an old table of {}", removed, o.len);
+                        }
+                        let rounds = if key_adding { f.adds.max(1) } else { 0 };
+                        let mut expect = after_removal;
+                        for _ in 0..rounds {
+                            expect -= r.min(expect);
+                        }
+                        if key_adding {
+                            if let Some(ep) = self.meta[s].episode.as_mut() {
+                                ep.1 += 1;
                             }
-                            if po.buckets != o.buckets {
-                                fail!(self, [C03], "second-old-table", "old table changed bucket count {} -> {} while present", o.buckets, po.buckets);
-                            }
-                            if po.len == 0 {
-                                // may only linger if emptied by erase-style routes (now or earlier),
-                                // and never across a key-adding call
-                                let lingering = !key_adding
-                                    && ((o.len == 0 && self.meta[s].linger_ok)
-                                        || (removed > 0 && f.removed_lingering));
-                                if !lingering {
-                                    fail!(self, [C03], "old-table-not-freed",
-                                        "old table is empty but still allocated after {} (key_adding={}, removed={})",
-                                        self.op_name, key_adding, removed);
+                        }
+                        match post.hook.old {
+                            Some(po) => {
+                                if po.len != expect {
+                                    fail!(self, [C03], "carry-quota",
+                                        "old table had {} elements ({} removed by this call), key_adding={}: expected {} left (R={}), found {}",
+                                        o.len, removed, key_adding, expect, r, po.len);
                                 }
-                                self.meta[s].linger_ok = true;
-                                if removed > 0 {
+                                if po.buckets != o.buckets {
+                                    fail!(self, [C03], "second-old-table", "old table changed bucket count {} -> {} while present", o.buckets, po.buckets);
+                                }
+                                if po.len == 0 {
+                                    // may only linger if emptied by erase-style routes (now or earlier),
+                                    // and never across a key-adding call
+                                    let lingering = !key_adding
+                                        && ((o.len == 0 && self.meta[s].linger_ok)
+                                            || (removed > 0 && f.removed_lingering));
+                                    if !lingering {
+                                        fail!(self, [C03], "old-table-not-freed",
+                                            "old table is empty but still allocated after {} (key_adding={}, removed={})",
+                                            self.op_name, key_adding, removed);
+                                    }
+                                    self.meta[s].linger_ok = true;
+                                    if removed > 0 {
+                                        self.meta[s].emptied_by_removal = true;
+                                    }
+                                }
+                            }
+                            None => {
+                                if expect != 0 {
+                                    fail!(self, [C03, C01], "old-table-dropped-early",
+                                        "old table with {} elements expected to remain was dropped", expect);
+                                }
+                                let how = if key_adding {
+                                    if o.len == 0 { 2 } else { 0 }
+                                } else {
                                     self.meta[s].emptied_by_removal = true;
+                                    1
+                                };
+                                self.episode_end(s, how);
+                            }
+                        }
+                    } else {
+                        // no old table before the call
+                        match post.hook.old {
+                            Some(po) => {
+                                if !key_adding {
+                                    fail!(self, [C03, C02], "resize-started-by-non-insert", "an old table appeared during {}", self.op_name);
+                                }
+                                // growth: everything that was in main is now old, minus one carry
+                                let l_start = pre.hook.main_len.saturating_sub(f.removed_from_main);
+                                let expect = l_start - r.min(l_start);
+                                // a chain that inserts twice may grow at either insertion: only the
+                                // single-insertion case is predicted exactly
+                                if po.len != expect && f.adds <= 1 {
+                                    fail!(self, [C03], "carry-quota-at-growth",
+                                        "growth at {} elements: expected {} left in the old table after the triggering call (R={}), found {}",
+                                        l_start, expect, r, po.len);
+                                }
+                                self.episode_start(s, l_start, 1);
+                            }
+                            None => {
+                                if key_adding && post.hook.main_buckets != pre.hook.main_buckets && pre.hook.main_len > 0 {
+                                    // grew and finished within the same call (L0 <= R)
+                                    if pre.hook.main_len.saturating_sub(f.removed_from_main) > r * f.adds.max(1) {
+                                        fail!(self, [C02, C03], "all-at-once-growth",
+                                            "table grew from {} to {} buckets with {} elements and no old table was kept",
+                                            pre.hook.main_buckets, post.hook.main_buckets, pre.hook.main_len);
+                                    }
+                                    self.stats.episodes_started += 1;
+                                    self.stats.episodes_finished[0] += 1;
+                                    self.nt(C03);
                                 }
                             }
                         }
-                        None => {
-                            if expect != 0 {
-                                fail!(self, [C03, C01], "old-table-dropped-early",
-                                    "old table with {} elements expected to remain was dropped", expect);
-                            }
-                            let how = if key_adding {
-                                if o.len == 0 { 2 } else { 0 }
-                            } else {
-                                self.meta[s].emptied_by_removal = true;
-                                1
-                            };
-                            self.episode_end(s, how);
-                        }
                     }
-                } else {
-                    // no old table before the call
-                    match post.hook.old {
-                        Some(po) => {
-                            if !key_adding {
-                                fail!(self, [C03, C02], "resize-started-by-non-insert", "an old table appeared during {}", self.op_name);
-                            }
-                            // growth: everything that was in main is now old, minus one carry
-                            let l_start = pre.hook.main_len.saturating_sub(f.removed_from_main);
-                            let expect = l_start - r.min(l_start);
-                            // a chain that inserts twice may grow at either insertion: only the
-                            // single-insertion case is predicted exactly
-                            if po.len != expect && f.adds <= 1 {
-                                fail!(self, [C03], "carry-quota-at-growth",
-                                    "growth at {} elements: expected {} left in the old table after the triggering call (R={}), found {}",
-                                    l_start, expect, r, po.len);
-                            }
-                            self.episode_start(s, l_start, 1);
-                        }
-                        None => {
-                            if key_adding && post.hook.main_buckets != pre.hook.main_buckets && pre.hook.main_len > 0 {
-                                // grew and finished within the same call (L0 <= R)
-                                if pre.hook.main_len.saturating_sub(f.removed_from_main) > r * f.adds.max(1) {
-                                    fail!(self, [C02, C03], "all-at-once-growth",
-                                        "table grew from {} to {} buckets with {} elements and no old table was kept",
-                                        pre.hook.main_buckets, post.hook.main_buckets, pre.hook.main_len);
-                                }
-                                self.stats.episodes_started += 1;
-                                self.stats.episodes_finished[0] += 1;
-                                self.nt(C03);
-                            }
-                        }
+                }
+                Kind::Reserve => {
+                    if pre.old_present() && post.old_present() && obs.alloc.allocs > 0 {
+                        // carried everything over, then parked the previous main table
+                        self.episode_end(s, 4);
+                        self.episode_start(s, post.l(), 0);
+                    } else if pre.old_present() && !post.old_present() {
+                        self.episode_end(s, 4);
+                    } else if !pre.old_present() && post.old_present() {
+                        // reserve parks the table without moving anything yet
+                        self.episode_start(s, post.l(), 0);
+                    }
+                }
+                _ => {
+                    if pre.old_present() && !post.old_present() {
+                        self.episode_end(s, 5);
+                    } else if pre.hook.old.map(|o| o.buckets) != post.hook.old.map(|o| o.buckets) || obs.alloc.allocs > 0 {
+                        // a resize started (or was replaced) inside a multi-insert call: its start
+                        // was not observed, so it is not an episode the bound is checked for
+                        self.meta[s].episode = None;
                     }
                 }
             }
-            Kind::Reserve => {
-                if pre.old_present() && post.old_present() && obs.alloc.allocs > 0 {
-                    // carried everything over, then parked the previous main table
-                    self.episode_end(s, 4);
-                    self.episode_start(s, post.l(), 0);
-                } else if pre.old_present() && !post.old_present() {
-                    self.episode_end(s, 4);
-                } else if !pre.old_present() && post.old_present() {
-                    // reserve parks the table without moving anything yet
-                    self.episode_start(s, post.l(), 0);
+            if !post.old_present() {
+                self.meta[s].linger_ok = false;
+                self.meta[s].nonremove_old_removal = false;
+            }
+            if let Some((l_start, calls)) = self.meta[s].episode {
+                let bound = (l_start + r - 1) / r;
+                if calls > bound {
+                    fail!(self, [C03], "episode-too-long", "resize that started with L={} still pending after {} key-adding calls (bound {})", l_start, calls, bound);
                 }
             }
-            _ => {
-                if pre.old_present() && !post.old_present() {
-                    self.episode_end(s, 5);
-                } else if pre.hook.old.map(|o| o.buckets) != post.hook.old.map(|o| o.buckets) || obs.alloc.allocs > 0 {
-                    // a resize started (or was replaced) inside a multi-insert call: its start
-                    // was not observed, so it is not an episode the bound is checked for
-                    self.meta[s].episode = None;
-                }
+            // live table allocations
+            let live = self.meta[s].live;
+            if live > 2 {
+                fail!(self, [C03], "three-tables", "map owns {} table allocations", live);
             }
-        }
-        if !post.old_present() {
-            self.meta[s].linger_ok = false;
-            self.meta[s].nonremove_old_removal = false;
-        }
-        if let Some((l_start, calls)) = self.meta[s].episode {
-            let bound = (l_start + r - 1) / r;
-            if calls > bound {
-                fail!(self, [C03], "episode-too-long", "resize that started with L={} still pending after {} key-adding calls (bound {})", l_start, calls, bound);
+            if live > 1 && !post.old_present() {
+                fail!(self, [C03, C06], "table-leak", "map owns {} table allocations but no resize is pending", live);
             }
-        }
-        // live table allocations
-        let live = self.meta[s].live;
-        if live > 2 {
-            fail!(self, [C03], "three-tables", "map owns {} table allocations", live);
-        }
-        if live > 1 && !post.old_present() {
-            fail!(self, [C03, C06], "table-leak", "map owns {} table allocations but no resize is pending", live);
-        }
-        if live < 0 {
-            fail!(self, [C06, C05], "table-double-free", "map table allocations went negative ({})", live);
-        }
+            if live < 0 {
+                fail!(self, [C06, C05], "table-double-free", "map table allocations went negative ({})", live);
+            }
 
-        // ---- C02: work per call
-        let nh = obs.hashes.len();
-        let kind = if f.panicked { Kind::Exempt } else { f.kind };
-        match kind {
-            Kind::Point => {
-                if key_adding {
-                    let q = f.qkey.unwrap_or(u32::MAX);
-                    let own = obs.hashes.iter().filter(|h| h.0 == q).count();
-                    let others: Vec<&(u32, u32)> = obs.hashes.iter().filter(|h| h.0 != q).collect();
-                    // the added key may also be one of the moved elements when an old-table
-                    // element is overwritten: allow one more for it
-                    let adds = f.adds.max(1);
-                    let own_bound = 2 * adds;
-                    let r = r * adds;
-                    let mut seen = BTreeSet::new();
-                    let mut dup = None;
-                    for h in &others {
-                        if !seen.insert(**h) {
-                            dup = Some(**h);
+            Ok(())
+        })();
+        let c02: Result<(), Fail> = (|| -> Result<(), Fail> {
+            // ---- C02: work per call
+            let nh = obs.hashes.len();
+            let kind = if f.panicked { Kind::Exempt } else { f.kind };
+            match kind {
+                Kind::Point => {
+                    if key_adding {
+                        let q = f.qkey.unwrap_or(u32::MAX);
+                        let own = obs.hashes.iter().filter(|h| h.0 == q).count();
+                        let others: Vec<&(u32, u32)> = obs.hashes.iter().filter(|h| h.0 != q).collect();
+                        // the added key may also be one of the moved elements when an old-table
+                        // element is overwritten: allow one more for it
+                        let adds = f.adds.max(1);
+                        let own_bound = 2 * adds;
+                        let r = r * adds;
+                        let mut seen = BTreeSet::new();
+                        let mut dup = None;
+                        for h in &others {
+                            if !seen.insert(**h) {
+                                dup = Some(**h);
+                            }
+                        }
+                        if own > own_bound || others.len() > r || nh > r + own_bound || dup.is_some() {
+                            fail!(self, [C02], "hash-bound-key-adding",
+                                "key-adding call did {} hash computations ({} of the added key, {} of {} other objects, duplicate {:?}); bound R+2 = {}",
+                                nh, own, others.len(), seen.len(), dup, r + 2);
+                        }
+                        if obs.alloc.allocs > adds as u64 {
+                            fail!(self, [C02], "alloc-bound-key-adding", "key-adding call allocated {} times", obs.alloc.allocs);
+                        }
+                    } else {
+                        let bound = if f.zero_hash_lookup { 0 } else { 1 };
+                        let foreign = obs.hashes.iter().filter(|h| Some(h.0) != f.qkey).count();
+                        if nh > bound || foreign > 0 {
+                            fail!(self, [C02], "hash-bound-lookup",
+                                "lookup/removal/in-place call did {} hash computations ({} of other keys); bound {}", nh, foreign, bound);
+                        }
+                        if obs.alloc.allocs != 0 {
+                            fail!(self, [C02], "alloc-in-lookup", "lookup/removal/in-place call allocated {} times", obs.alloc.allocs);
+                        }
+                        // "move nothing": main only shrinks by own removals, old only by own removals
+                        if post.hook.main_len > pre.hook.main_len {
+                            fail!(self, [C02], "moved-in-lookup", "main table grew {} -> {} in a non-adding call", pre.hook.main_len, post.hook.main_len);
                         }
                     }
-                    if own > own_bound || others.len() > r || nh > r + own_bound || dup.is_some() {
-                        fail!(self, [C02], "hash-bound-key-adding",
-                            "key-adding call did {} hash computations ({} of the added key, {} of {} other objects, duplicate {:?}); bound R+2 = {}",
-                            nh, own, others.len(), seen.len(), dup, r + 2);
-                    }
-                    if obs.alloc.allocs > adds as u64 {
-                        fail!(self, [C02], "alloc-bound-key-adding", "key-adding call allocated {} times", obs.alloc.allocs);
-                    }
-                } else {
-                    let bound = if f.zero_hash_lookup { 0 } else { 1 };
-                    let foreign = obs.hashes.iter().filter(|h| Some(h.0) != f.qkey).count();
-                    if nh > bound || foreign > 0 {
-                        fail!(self, [C02], "hash-bound-lookup",
-                            "lookup/removal/in-place call did {} hash computations ({} of other keys); bound {}", nh, foreign, bound);
-                    }
-                    if obs.alloc.allocs != 0 {
-                        fail!(self, [C02], "alloc-in-lookup", "lookup/removal/in-place call allocated {} times", obs.alloc.allocs);
-                    }
-                    // "move nothing": main only shrinks by own removals, old only by own removals
-                    if post.hook.main_len > pre.hook.main_len {
-                        fail!(self, [C02], "moved-in-lookup", "main table grew {} -> {} in a non-adding call", pre.hook.main_len, post.hook.main_len);
+                }
+                Kind::Reserve => {
+                    if !pre.old_present() {
+                        if nh != 0 {
+                            fail!(self, [C02], "hash-in-reserve", "reserve on a map with no resize pending did {} hash computations", nh);
+                        }
+                        if obs.alloc.allocs > 1 {
+                            fail!(self, [C02], "alloc-bound-reserve", "reserve allocated {} times", obs.alloc.allocs);
+                        }
                     }
                 }
-            }
-            Kind::Reserve => {
-                if !pre.old_present() {
-                    if nh != 0 {
-                        fail!(self, [C02], "hash-in-reserve", "reserve on a map with no resize pending did {} hash computations", nh);
-                    }
-                    if obs.alloc.allocs > 1 {
-                        fail!(self, [C02], "alloc-bound-reserve", "reserve allocated {} times", obs.alloc.allocs);
+                Kind::Bulk => {
+                    if nh != 0 || obs.alloc.allocs != 0 {
+                        fail!(self, [C02], "work-in-bulk", "{} did {} hash computations and {} allocations", self.op_name, nh, obs.alloc.allocs);
                     }
                 }
-            }
-            Kind::Bulk => {
-                if nh != 0 || obs.alloc.allocs != 0 {
-                    fail!(self, [C02], "work-in-bulk", "{} did {} hash computations and {} allocations", self.op_name, nh, obs.alloc.allocs);
+                Kind::Extend(n) => {
+                    if !pre.old_present() && nh > n * (r + 2) {
+                        fail!(self, [C02], "hash-bound-extend", "extend of {} items did {} hash computations; bound {}", n, nh, n * (r + 2));
+                    }
                 }
+                Kind::Shrink | Kind::Exempt => {}
             }
-            Kind::Extend(n) => {
-                if !pre.old_present() && nh > n * (r + 2) {
-                    fail!(self, [C02], "hash-bound-extend", "extend of {} items did {} hash computations; bound {}", n, nh, n * (r + 2));
-                }
-            }
-            Kind::Shrink | Kind::Exempt => {}
-        }
 
+            Ok(())
+        })();
+        match (c03, c02) {
+            (Ok(()), Ok(())) => {}
+            (Err(a), Ok(())) => return Err(a),
+            (Ok(()), Err(b)) => return Err(b),
+            (Err(a), Err(b)) => {
+                // report the one the focused property owns, if any
+                let own_b = matches!(self.focus, Some(p) if b.has(p) && !a.has(p));
+                return Err(if own_b { b } else { a });
+            }
+        }
         // ---- non-trivial bookkeeping for C01
         if f.listed {
             if l0 > 0 {
@@ -1118,11 +1144,14 @@ impl<F: Fam> Ctx<F> {
         self.ledger_check(&[])?;
         let slot = &self.slots[s];
         let len = slot.map.len();
+        // len()/is_empty() are also part of C14's "depends only on contents"
+        let mut tags: Vec<Prop> = tags.to_vec();
+        tags.push(C14);
         if len != slot.model.len() {
-            return Err(self.mkfail(tags.to_vec(), "len", format!("len() = {}, reference has {}", len, slot.model.len()), String::new()));
+            return Err(self.mkfail(tags, "len", format!("len() = {}, reference has {}", len, slot.model.len()), String::new()));
         }
         if slot.map.is_empty() != slot.model.is_empty() {
-            return Err(self.mkfail(tags.to_vec(), "is-empty", format!("is_empty() = {}", slot.map.is_empty()), String::new()));
+            return Err(self.mkfail(tags, "is-empty", format!("is_empty() = {} but the reference holds {} elements", slot.map.is_empty(), slot.model.len()), String::new()));
         }
         Ok(())
     }
